@@ -1,44 +1,11 @@
-# Per-property run configuration for bin/check.
-# run: name, pkg (relative to /repo), run (go test -run regex), race (bool), tiers, timeout, env
-M = r"github\.com/rpcpool/yellowstone-faithful"
-
-PROPS = {
-    "C01": {
-        "level": "exploration",
-        "level_text": "Generated well-formed epoch CARs (reference encoder, own CAR writer, ground-truth section table) are indexed by the repository's own createAllIndexes and every object/slot/signature is looked up through the index readers, a local Epoch, a remote (HTTP ReaderAt + range cache + prefetch) Epoch and /api/v1. Exploration over layout knobs incl. the 10 000-entry bucket boundary; evidence lists the layout signatures reached.",
-        "level_note": "trusts ipld-prime bindnode/dag-cbor, go-cid and the generator's own CAR writer as ground truth; Filecoin/lassie mode and split-piece CARs are not exercised",
-        "technique": "runtime monitoring: generated workloads + ground-truth model oracle over the real indexer and readers",
-        "rule": "see parts",
-        "runs": [
-            {"name": "indexall", "pkg": ".", "run": "^TestVerifC01$", "timeout": "40m", "timeout_thorough": "180m"},
-        ],
-    },
-    "C02": {
-        "level": "exploration",
-        "level_text": "Every archived slot and signature of generated epochs (incl. epoch 0 with genesis, multi-frame payloads, skipped slots, vote/failed/v0 transactions) is requested through JSON-RPC (4 encodings) and gRPC (unary and the bidirectional Get) for every non-empty subset of loaded epochs and search concurrency 1, 2, NumCPU, from 16 client goroutines; responses are compared with the generator's model field by field.",
-        "level_note": "JSON `json` encoding is compared on signatures, account keys, fee and err only; slot 0's blockTime/previousBlockhash are documented Solana-compatible special cases and not compared; rewards are a diagnostic",
-        "technique": "runtime monitoring: generated epochs + model oracle over real handlers, concurrent clients (race detector in the thorough tier)",
-        "rule": "see parts",
-        "race_allow": [r"main\.\(\*MultiEpoch\)", r"main\.\(\*Epoch\)", r"main\.FirstSuccess", r"/huge-cache\.", r"/compactindexsized\.", r"/bucketteer\.", r"/tooling\."],
-        "runs": [
-            {"name": "rpc", "pkg": ".", "run": "^TestVerifC02$", "timeout": "40m", "timeout_thorough": "120m", "tiers": ("quick",)},
-            {"name": "rpc-race", "pkg": ".", "run": "^TestVerifC02$", "race": True, "timeout": "240m", "timeout_thorough": "240m", "tiers": ("thorough",), "env": {"VERIF_PART_SUFFIX": "-race"}},
-        ],
-    },
-    "C18": {
-        "level": "exploration",
-        "level_text": "Every feasible completion order of 1..6 gated jobs x every outcome vector x every concurrency limit is executed against the real FirstSuccess (plain and under the race detector); the oracle is the statement itself (value of a finished succeeding job / complete error list / returns). Exhaustive inside that scope, nothing beyond it.",
-        "level_note": "completion order is controlled at the job-function boundary; termination is decided by goroutine state after all gates are released, never by wall-clock alone; the live-context clause only (cancelled context: termination only)",
-        "technique": "runtime monitoring: gated schedule enumeration + result oracle + race detector",
-        "rule": "exhaustive enumeration of gated schedules of FirstSuccess",
-        "assumptions": ["completion order is enforced at the return of the job function, not at the internal channel send"],
-        "race_allow": [r"main\.FirstSuccess", r"main\.\(\*JobGroup"],
-        "runs": [
-            {"name": "sched", "pkg": ".", "run": "^TestVerifC18$", "timeout": "20m", "timeout_thorough": "60m"},
-            {"name": "sched-race", "pkg": ".", "run": "^TestVerifC18$", "race": True, "timeout": "30m", "timeout_thorough": "90m",
-             "env": {"VERIF_PART_SUFFIX": "-race"}},
-        ],
-    },
-}
-
+# Per-property run configuration for bin/check: one file bin/props.d/<ID>.py per property, defining PROP = {...}
+#   level, level_text, level_note, technique, rule, assumptions, race_allow (regexes over the innermost repo frame of a
+#   racing access), runs: [{name, pkg (relative to /repo), run (go test -run regex), race, tiers, timeout,
+#   timeout_thorough, env}]
+import glob, os
+PROPS = {}
+for _p in sorted(glob.glob(os.path.join(os.path.dirname(os.path.abspath(__file__)), "props.d", "C*.py"))):
+    _ns = {}
+    exec(open(_p).read(), _ns)
+    PROPS[os.path.basename(_p)[:-3]] = _ns["PROP"]
 NOT_BUILT = {}
